@@ -269,7 +269,21 @@ def make_event(r: dict) -> dict:
         try:
             r1 = _json_rt(od, d)
             r2 = _json_rt(od, r1)
-            return {"op": op, "d": tok, "r1": dtok(r1, k), "r2": dtok(r2, k), "eq1": int(r1 == d), "eq2": int(r2 == r1)}
+            t1, t2, eq1, eq2 = dtok(r1, k), dtok(r2, k), int(r1 == d), int(r2 == r1)
+            # the caller owns what it parsed and may change it; a LATER round trip of the untouched original must still
+            # give the original (parsed results are not shared)
+            for obj in (r1, r2):
+                for attr, val in (("high", getattr(obj, "low", None)), ("choices", tuple(getattr(obj, "choices", ())[:1])),
+                                  ("step", None), ("log", not getattr(obj, "log", False))):
+                    try:
+                        if hasattr(obj, attr):
+                            setattr(obj, attr, val)
+                    except Exception:  # noqa
+                        pass
+            r3 = _json_rt(od, d)
+            if not (r3 == d):
+                t1, eq1 = dtok(r3, k), 0
+            return {"op": op, "d": tok, "r1": t1, "r2": t2, "eq1": eq1, "eq2": eq2}
         except Exception:  # noqa
             return {"op": op, "d": tok, "r1": ERR_D, "r2": ERR_D, "eq1": 0, "eq2": 0}
     if op == "single":
